@@ -33,7 +33,10 @@ def gen_history(rng, n, branches):
         elif k == "nr":
             ops.append(("nr", o, rng.randint(-m - 1, m), rng.choice(COLS)))
         elif k == "nw":
-            ops.append(("nw", o, rng.randint(-m, m - 1), c, rng.randint(-50, 50)))
+            i = rng.randint(-m, m - 1)
+            ops.append(("nw", o, i, c, rng.randint(-50, 50)))
+            if rng.random() < 0.7:              # … and look at it again, through the handle and through the owner
+                ops.append(rng.choice([("nr", o, i, c), ("r", o, c)]))
         elif k == "ow":
             ops.append(("ow", o, rng.randrange(m), c, rng.randint(-50, 50)))
         elif k == "mv":
@@ -87,13 +90,25 @@ class History(Suite):
                             while len(kids.get(b[-1], [])) == 1:
                                 b.append(kids[b[-1]][0])
                             brs.append(b)
-                out.append({"class": f"{shape}", "tree": t, "ops": gen_history(rng, nn, brs)})
+                # root-to-tip paths of consecutively numbered chains as well (a path over consecutive indices could be served by a slice)
+                if shape in ("chain", "stem", "two") or rng.random() < 0.3:
+                    brs.append(list(range(0, rng.randint(1, nn))))
+                out.append({"class": f"{shape}", "tree": t, "ops": gen_history(rng, nn, brs), "strided": rng.random() < 0.5,
+                            "viewkind": rng.choice(["branch", "path", "path"])})
         return out
 
     def run(self, case):
-        from swcgeom.core import Branch, Tree
+        from swcgeom.core import Branch, Path, Tree
 
-        t = gen.make_tree(case["tree"])
+        if case.get("strided"):
+            # the same neuron, its float columns being strided views of one (n, 4) matrix (as Branch.from_xyzr and many loaders do)
+            tc = case["tree"]; n0 = tc["n"]
+            m = np.array([p + [rr] for p, rr in zip(tc["xyz"], tc["r"])], dtype=np.float32)
+            t = Tree(n0, id=np.arange(n0, dtype=np.int32), pid=np.array(tc["pids"], dtype=np.int32), type=np.array(tc["types"], dtype=np.int32),
+                     x=m[:, 0], y=m[:, 1], z=m[:, 2], r=m[:, 3])
+        else:
+            t = gen.make_tree(case["tree"])
+        View = Path if case.get("viewkind") == "path" else Branch
         objs, views = [t], []
         outs = []
         alias = []
@@ -125,7 +140,7 @@ class History(Suite):
                 elif k == "ow":
                     objs[op[1]].get_ndata(op[3])[op[2]] = op[4]; outs.append("ok")
                 elif k == "mv":
-                    views.append(Branch(objs[op[1]], np.array(op[2], dtype=np.int32))); outs.append(f"view{len(views) - 1}")
+                    views.append(View(objs[op[1]], np.array(op[2], dtype=np.int32))); outs.append(f"view{len(views) - 1}")
                 elif k == "vr":
                     outs.append([int(v) for v in views[op[1]].get_ndata(op[2])])
                 elif k == "vn":
@@ -142,7 +157,12 @@ class History(Suite):
                 elif k == "sg":
                     outs.append([[int(v) for v in s.get_ndata("id")] for s in objs[op[1]].get_segments()])
                 elif k == "vs":
-                    outs.append([[int(v) for v in s.get_ndata("id")] for s in views[op[1]].get_segments()])
+                    vw = views[op[1]]
+                    if not hasattr(vw, "get_segments"):      # a plain Path has no segments API: same answer from its node pairs
+                        ids_ = [int(v) for v in vw.get_ndata("id")]
+                        outs.append([[a, b] for a, b in zip(ids_, ids_[1:])])
+                    else:
+                        outs.append([[int(v) for v in s.get_ndata("id")] for s in vw.get_segments()])
                 elif k == "sl":
                     o = objs[op[1]]
                     if isinstance(o, Tree):
